@@ -28,6 +28,8 @@ type valDom struct {
 	toDecimal *ssa.Function
 	// opaqueSort keeps the sorting routines of the standard library uninterpreted
 	opaqueSort bool
+	// sortProbe: a call of slices.SortFunc is answered by interpreting its comparator on the first two elements
+	sortProbe bool
 	why        string
 }
 
@@ -128,6 +130,20 @@ func (d *valDom) Call(e *Engine, st *State, site ssa.CallInstruction, callee *ss
 		if len(args) == 2 {
 			return []CallOut{{St: st, Res: []AV{d.ord(st, args[0], args[1])}}}, true
 		}
+	case "cmp.Compare[int]", "cmp.Compare[int64]":
+		if len(args) == 2 {
+			if a, ok := st.KnownInt(args[0]); ok {
+				if b, ok := st.KnownInt(args[1]); ok {
+					r := int64(0)
+					if a < b {
+						r = -1
+					} else if a > b {
+						r = 1
+					}
+					return []CallOut{{St: st, Res: []AV{avConst{constant.MakeInt64(r)}}}}, true
+				}
+			}
+		}
 	case "(github.com/woodsbury/decimal128.Decimal).Equal":
 		return []CallOut{{St: st, Res: []AV{d.ordCmp(e, st, token.EQL, d.ord(st, args[0], args[1]))}}}, true
 	case "(github.com/woodsbury/decimal128.CmpResult).Less":
@@ -150,6 +166,12 @@ func (d *valDom) Call(e *Engine, st *State, site ssa.CallInstruction, callee *ss
 	if d.p.IsRepo(callee) {
 		return nil, false // interpreted by the engine
 	}
+	if pp := originPkgPath(callee); d.sortProbe && pp == "slices" && strings.HasPrefix(callee.Name(), "SortFunc") && len(args) == 2 {
+		// an unstable sort with a comparator: on the two elements the path has put into the slice, does the comparator
+		// order the earlier before the later when their keys compare equal, and never report a tie?
+		d.probeComparator(e, st, site, args[0], args[1], depth)
+		return []CallOut{{St: st}}, true
+	}
 	if pp := originPkgPath(callee); d.opaqueSort && (pp == "sort" || pp == "slices" && strings.HasPrefix(callee.Name(), "Sort")) {
 		// the ordering step itself is of no interest to the rule: its results are fresh symbols
 		var res []AV
@@ -162,6 +184,81 @@ func (d *valDom) Call(e *Engine, st *State, site ssa.CallInstruction, callee *ss
 		return e.Inline(callee, args, nil, st, depth), true
 	}
 	return nil, false
+}
+
+// probeComparator interprets comparator cmp on (element 0, element 1) of slice sl and records, as "sort-probe" events,
+// what it returns on the paths on which every three-way comparison of keys came out equal: a negative number keeps the
+// original order (the comparator breaks ties by position), zero leaves the order of equal elements to the algorithm.
+func (d *valDom) probeComparator(e *Engine, st *State, site ssa.CallInstruction, sl, cmp AV, depth int) {
+	note := func(verdict, msg string) {
+		st.event(Event{Kind: "sort-probe", Note: verdict + ": " + msg, Pos: site.Pos()})
+	}
+	s, ok := sl.(avSlice)
+	if !ok {
+		note("unknown", "the slice handed to the sort is "+renderVal(sl))
+		return
+	}
+	n := s.n
+	if n < 0 {
+		if k, known := st.KnownInt(s.o.of); known {
+			n = int(k)
+		}
+	}
+	if n != 2 {
+		return // only paths over two elements are probed
+	}
+	var fn *ssa.Function
+	var bind []AV
+	switch c := cmp.(type) {
+	case avFunc:
+		fn, bind = c.fn, c.free
+	}
+	if fn == nil || len(fn.Blocks) == 0 {
+		note("unknown", "the comparator is "+renderVal(cmp))
+		return
+	}
+	x0, _ := st.load(avPtr{s.o, s.path + "[0]"})
+	x1, _ := st.load(avPtr{s.o, s.path + "[1]"})
+	if x0 == nil || x1 == nil {
+		note("unknown", "the elements of the slice are not known")
+		return
+	}
+	for _, out := range e.Inline(fn, []AV{x0, x1}, bind, st.clone(), depth+1) {
+		if len(out.Res) != 1 {
+			continue
+		}
+		// only the paths on which every ordering symbol is pinned to 0 (the keys compare equal)
+		tie, any := true, false
+		for k, id := range out.St.named {
+			if !strings.HasPrefix(k, "ord(") {
+				continue
+			}
+			any = true
+			if f := out.St.ints[id]; f == nil || f.lo != 0 || f.hi != 0 {
+				tie = false
+			}
+		}
+		if !any || !tie {
+			continue
+		}
+		lo, hi, known := int64(0), int64(0), false
+		switch v := out.Res[0].(type) {
+		case avConst:
+			if i, ok := constant.Int64Val(v.v); ok {
+				lo, hi, known = i, i, true
+			}
+		case avSym:
+			lo, hi, known = out.St.intRange(v)
+		}
+		switch {
+		case known && hi < 0:
+			note("ok", "equal keys: the earlier element sorts first")
+		case known && lo == 0 && hi == 0:
+			note("tie", "the comparator reports a tie for elements with equal keys: an unstable sort may reorder them")
+		default:
+			note("bad", fmt.Sprintf("equal keys: the comparator returns %s for (earlier, later)", renderVal(out.Res[0])))
+		}
+	}
 }
 
 // knownNonNil: the path has established that v is not nil.
